@@ -3,7 +3,9 @@
 Every case is (history, probe): the probe operation is executed (A) as the first thing done in a process and
 (B) after a history of 1-12 operations on unrelated designs of comparable scale, both in processes forked from
 the pristine import-time state of a fresh interpreter (harness/props/c20_worker.py; a sample is cross-checked
-against truly fresh interpreters).  The direct oracle demands equal canonical digests of the observable result.
+against truly fresh interpreters).  Two families of histories: UNRELATED designs (gen_group) and NEAR-DUPLICATES of
+the probed design, the probe itself included (gen_related_group, harness/props/c20_related.py) - a memo table keyed
+too coarsely only collides on the latter.  The direct oracle demands equal canonical digests of the observable result.
 The model side (coq/History/State.v): the first-writer-wins tolerance trace of the history, the prediction of
 WHERE a dependence on the tolerance appears (model output under the tolerance the history installed vs under the
 probe's own), the robustness predicate of the eps_insensitive theorems, and the C07 posting model started from
@@ -1204,8 +1206,8 @@ def audit_state(out):
 def run(ctx, out, replay=None):
     quick = ctx.quick()
     _t("start")
-    ngroups = 45 if quick else 800
-    nrelated = 36 if quick else 700
+    ngroups = 45 if quick else 620
+    nrelated = 36 if quick else 400
     out.rule = ("(history, probe) pairs: probe = netlist load + verdict / orthogon recognition of a hard module / die "
                 "decomposition (with fixed rectangles of a netlist) / allocation + refine, griddify, uniform depth / "
                 "SAT posting sequence / legaliser Model construction / Strop / objects built from default arguments; "
@@ -1263,8 +1265,8 @@ def run(ctx, out, replay=None):
     # how many exact probes the model calls robust
     rob = [(c, robust_expr(c)) for c in cases]
     rob = [(c, e) for c, e in rob if e is not None and "crash" not in _CACHE.get(case_key(c), {})]
-    if quick:
-        rob = rob[:48]          # a sample: the implication robust -> same is part of every case's model check anyway
+    # a sample: the implication robust -> same is part of every case's model check anyway
+    rob = rob[:48] if quick else (rob if len(rob) <= 800 else rob[:400] + rob[-400:])
     vals = core.coq_eval_bools(ctx, HEADER, [e for _, e in rob], shard=12 if quick else 80, tag="robust")
     nrob = sum(1 for v in vals if v is True)
     stats["exact_probes"] = len(rob)
